@@ -358,6 +358,8 @@ public class BlogServiceImpl implements BlogService {
     }
 }
 `},
+	{"Blank", "zero-byte-file", ""},
+	{"OnlyComments", "comments-only-file", "// nothing is declared in this file\n/* TODO: or ever */\n\n"},
 }
 
 type c07Op struct {
@@ -616,12 +618,12 @@ func init() {
 	engine.Register(&engine.Spec{
 		ID:    "C07",
 		Title: "A file's analysis result is independent of other files, order and repetition",
-		Rule: "X2 explicit-state BFS over operation sequences from the pristine process state; operations = run one pass (identifier, full, bad-smell, API) on one of 12 residue-leaving files, or build the call / reverse-call / lookup graph of a cyclic model; " +
+		Rule: "X2 explicit-state BFS over operation sequences from the pristine process state; operations = run one pass (identifier, full, bad-smell, API) on one of 30 residue-leaving files, or build the call / reverse-call / lookup graph of a cyclic model; " +
 			"state = canonical dump of every package-level variable of coca's packages (auto-discovered), de-duplicated by hash; invariant on every transition: the operation's observable result equals its result in a pristine process. " +
 			"Per-pass alphabets are explored deeper than the mixed alphabet. Non-trivial = transition from a non-pristine state.",
 		Assumptions: []string{
-			"operating on single files in sequence is equivalent to file lists in that order (AnalysisFiles / AnalysisPath loop over files with a fresh listener each; checked by reading, and file-list operations are exercised by C01/C12)",
-			"identifier set held fixed (computed once from the pristine state over all 12 files)",
+			"operating on single files in sequence is equivalent to file lists in that order: checked for lists of two (thorough: three) files by the file-lists section, which runs each pass over the list in one call",
+			"identifier set held fixed (computed once from the pristine state over all files)",
 			"state canonicalisation: all package-level variables of github.com/modernizing/coca/pkg/...; ANTLR DFA caches in languages/* are excluded (semantically transparent memoisation); a wrong merge could only prune and the no-dedup depth-2 cross-check covers it",
 			"graphConnectedCall findings carry no file and are not part of a file's slice",
 		},
@@ -735,6 +737,16 @@ func c07Explore(ctx *engine.Ctx) *engine.Report {
 		perSection[sec.name] = map[string]interface{}{"operations": len(sec.ops), "depth_completed": completed, "depth_bound": sec.depth,
 			"distinct_hidden_states": len(seen) + 1, "transitions": secTrans, "dedup": sec.dedup, "state_space_closed": closed}
 		if completed < sec.depth {
+			exhaustive = false
+		}
+	}
+	// ---- file lists: one pass over an ordered list of files against the same pass over each file alone ---------
+	{
+		n, done := c07FileLists(dir, ctx, &cands)
+		transitions += n
+		nontrivial += n
+		perSection["file-lists"] = map[string]interface{}{"passes": c07ListPasses, "lists": n, "list_lengths": done, "dedup": false}
+		if !strings.HasSuffix(done, "complete") {
 			exhaustive = false
 		}
 	}
@@ -918,4 +930,173 @@ func c07CommandSequences(dir string, depth int, ctx *engine.Ctx, cands *[]engine
 		}
 	}
 	return len(seqs), viol
+}
+
+// ---- file lists -------------------------------------------------------------------------------------------------
+
+var c07ListPasses = []string{"ident", "full", "bs", "api"}
+
+type c07ListTask struct {
+	Dir   string `json:"dir"`
+	Pass  string `json:"pass"`
+	Files []int  `json:"files"`
+}
+
+func c07ListDescribe(t c07ListTask) string {
+	var names []string
+	for _, f := range t.Files {
+		names = append(names, c07Files[f].Name)
+	}
+	return t.Pass + " pass over the file list [" + strings.Join(names, ", ") + "]"
+}
+
+// c07ListEntries runs one pass over the files in that order (one directory walk, or one file list) and returns
+// the entries it produced, one JSON text each, with paths cut down to the file name.
+func (e *c07Env) c07ListEntries(pass string, files []int) []string {
+	var out []string
+	add := func(v interface{}) {
+		b, _ := json.Marshal(v)
+		out = append(out, string(b))
+	}
+	var list []string
+	for _, f := range files {
+		list = append(list, filepath.Join(e.dir, "all", c07Files[f].Name+".java"))
+	}
+	strip := []string{e.dir + "/all/"}
+	dir := ""
+	if pass == "bs" || pass == "api" {
+		// a directory whose walk order is the list order
+		dir = filepath.Join(e.dir, fmt.Sprintf("list-%d", os.Getpid()))
+		os.RemoveAll(dir)
+		for i, f := range files {
+			sub := filepath.Join(dir, fmt.Sprintf("%d_%s", i, c07Files[f].Name))
+			os.MkdirAll(sub, 0o755)
+			os.WriteFile(filepath.Join(sub, c07Files[f].Name+".java"), []byte(c07Files[f].Src), 0o644)
+			strip = append(strip, sub+"/")
+		}
+		defer os.RemoveAll(dir)
+	}
+	switch pass {
+	case "ident":
+		for _, n := range identPass(list) {
+			add(n)
+		}
+	case "full":
+		nodes := fullPass(e.idents, list)
+		sortFunctions(nodes)
+		for _, n := range nodes {
+			add(n)
+		}
+	case "bs":
+		app := bs.NewBadSmellApp()
+		nodes := app.AnalysisPath(dir)
+		for _, n := range *nodes {
+			add(n)
+		}
+		for _, b := range app.IdentifyBadSmell(nodes, nil) {
+			if b.Bs != "graphConnectedCall" {
+				add(b)
+			}
+		}
+	case "api":
+		app := new(api.JavaApiApp)
+		for _, a := range app.AnalysisPath(dir, e.deps, e.identMap, map[string]string{}) {
+			add(a)
+		}
+	}
+	for i := range out {
+		for _, s := range strip {
+			out[i] = strings.ReplaceAll(out[i], s, "")
+		}
+	}
+	sort.Strings(out)
+	return out
+}
+
+func init() {
+	engine.Tasks["c07list"] = func(in json.RawMessage) interface{} {
+		var t c07ListTask
+		json.Unmarshal(in, &t)
+		e := c07Setup(t.Dir)
+		var want []string
+		for _, f := range t.Files {
+			engine.Reset()
+			want = append(want, e.c07ListEntries(t.Pass, []int{f})...)
+		}
+		sort.Strings(want)
+		engine.Reset()
+		got := e.c07ListEntries(t.Pass, t.Files)
+		v := engine.TaskVerdict{Outcome: engine.Hash(strings.Join(got, "\n"))}
+		w, g := strings.Join(want, "\n"), strings.Join(got, "\n")
+		if w != g {
+			v.Violations = append(v.Violations, engine.Violation{Clause: t.Pass + "-file-list", Kind: "entries-differ-from-the-files-alone",
+				Detail:   fmt.Sprintf("%s: the entries differ from the union of the entries each file gives alone: %s", c07ListDescribe(t), firstDiff(w, g)),
+				Expected: w, Observed: g})
+		}
+		return v
+	}
+}
+
+// c07FileLists: every ordered pair of distinct files per pass; in the thorough tier also every ordered triple
+// whose middle file declares nothing (the two class-less files) and every triple of the first 8 files.
+func c07FileLists(dir string, ctx *engine.Ctx, cands *[]engine.Candidate) (int, string) {
+	var inputs []interface{}
+	var meta []c07ListTask
+	push := func(pass string, files ...int) {
+		t := c07ListTask{Dir: dir, Pass: pass, Files: files}
+		inputs = append(inputs, t)
+		meta = append(meta, t)
+	}
+	n := len(c07Files)
+	for _, pass := range c07ListPasses {
+		for a := 0; a < n; a++ {
+			for b := 0; b < n; b++ {
+				if a != b {
+					push(pass, a, b)
+				}
+			}
+		}
+	}
+	done := "ordered pairs"
+	if ctx.Tier == "thorough" {
+		done = "ordered pairs and triples (class-less middle file; first 8 files)"
+		for _, pass := range c07ListPasses {
+			for a := 0; a < n; a++ {
+				for b := 0; b < n; b++ {
+					for c := 0; c < n; c++ {
+						if a == b || b == c || a == c {
+							continue
+						}
+						if c07Files[b].Src == "" || c07Files[b].Name == "OnlyComments" || (a < 8 && b < 8 && c < 8) {
+							push(pass, a, b, c)
+						}
+					}
+				}
+			}
+		}
+	}
+	if time.Now().After(ctx.Deadline) {
+		return 0, "not run (deadline)"
+	}
+	results, err := engine.RunTasks(ctx, "c07list", inputs)
+	if err != nil {
+		panic(err)
+	}
+	for i, r := range results {
+		if r.Err != "" {
+			*cands = append(*cands, engine.Candidate{Violation: engine.V("file-lists", "task-failed", "%s: %s", c07ListDescribe(meta[i]), r.Err),
+				Desc: c07ListDescribe(meta[i]), Task: "c07list", Input: inputs[i], Cost: len(meta[i].Files)})
+			continue
+		}
+		var v engine.TaskVerdict
+		if r.Panic != "" {
+			v.Violations = []engine.Violation{{Clause: "panic", Kind: r.Frame, Detail: c07ListDescribe(meta[i]) + ": panic in " + r.Frame + ": " + r.Panic}}
+		} else {
+			json.Unmarshal(r.Out, &v)
+		}
+		for _, x := range v.Violations {
+			*cands = append(*cands, engine.Candidate{Violation: x, Tags: []string{c07Files[meta[i].Files[len(meta[i].Files)-1]].Tag}, Desc: c07ListDescribe(meta[i]), Task: "c07list", Input: inputs[i], Cost: len(meta[i].Files)})
+		}
+	}
+	return len(inputs), done + ": complete"
 }
